@@ -8,7 +8,9 @@
   which template, which count), read from the function bodies with the `ast` module;
 * the constructor-name guesses of `MainTransformer._guess_constructor_by_name`, the
   root class name of the ancestor walk of `_is_constructor`, and the get-type suffixes
-  of `ast.Function.is_type_meta_function`, read with the `ast` module.
+  of `ast.Function.is_type_meta_function`, read with the `ast` module;
+* the statements of `GDumpParser._split_type_and_symbol_prefix` (which suffix is cut off the get-type
+  symbol, and that it is cut at the END), unparsed with the `ast` module.
 
 A `decide` theorem in Props/C04.lean pins every shape string to the shape the model was
 written for, so a changed regex / template / literal breaks a proof obligation."""
@@ -118,10 +120,22 @@ def main():
     isctor = find_func(mtree, '_is_constructor', 'MainTransformer')
     roots = sorted(set(n.value for n in pyast.walk(isctor)
                        if isinstance(n, pyast.Constant) and isinstance(n.value, str) and n.value.startswith('GObject.')))
+    # GDumpParser._split_type_and_symbol_prefix: the symbol prefix of a registered type is its get-type
+    # symbol minus the namespace prefix and the FINAL suffix; statements normalised (fatal message elided)
+    dtree = pyast.parse(read('giscanner/gdumpparser.py'))
+    split_shape = []
+    for stmt in find_func(dtree, '_split_type_and_symbol_prefix', 'GDumpParser').body:
+        if isinstance(stmt, pyast.Expr) and isinstance(stmt.value, pyast.Constant):
+            continue                                     # docstring
+        if isinstance(stmt, pyast.If) and any(isinstance(n, pyast.Attribute) and n.attr == 'fatal'
+                                              for n in pyast.walk(stmt)):
+            split_shape.append('if %s: fatal' % pyast.unparse(stmt.test))
+        else:
+            split_shape.append(' '.join(pyast.unparse(stmt).split()))
     atree = pyast.parse(read('giscanner/ast.py'))
     meta = string_tests(find_func(atree, 'is_type_meta_function', 'Function'))
 
-    text = '''-- GENERATED by translators/gen_naming.py from giscanner/utils.py, maintransformer.py, ast.py. Do not edit.
+    text = '''-- GENERATED by translators/gen_naming.py from giscanner/utils.py, maintransformer.py, gdumpparser.py, ast.py. Do not edit.
 namespace GIVerif.Gen
 
 /-- `_upperstr_pat1..3` as parsed by CPython's regex parser -/
@@ -148,6 +162,9 @@ def ctorWalkRoots : List String := %s
 /-- string tests of `Function.is_type_meta_function` -/
 def typeMetaTests : List String := %s
 
+/-- statements of `GDumpParser._split_type_and_symbol_prefix` -/
+def splitTypeAndSymbolPrefixSteps : List String := %s
+
 end GIVerif.Gen
 ''' % (lean_list([lean_str(s) for s in shapes]),
        lean_list(['(%d, %d)' % r for r in upper]),
@@ -156,7 +173,8 @@ end GIVerif.Gen
        lean_list([lean_str(s) for s in steps_np]),
        lean_list([lean_str(s) for s in guess]),
        lean_list([lean_str(s) for s in roots]),
-       lean_list([lean_str(s) for s in meta]))
+       lean_list([lean_str(s) for s in meta]),
+       lean_list([lean_str(s) for s in split_shape]))
     path, digest, changed = write_if_changed('Naming.lean', text)
     print('gen_naming: %s sha256=%s changed=%s shapes=%d' % (path, digest[:12], changed, len(shapes)))
 
